@@ -225,6 +225,31 @@ func rmwResultSet(r *Report, p *Program, rule string) {
 				c, isC := st.Val.(*ssa.Const)
 				return !(isC && c.IsNil())
 			}}.Find()
+			// what is handed back is the LIVE object (what GET returned, or what the write returned),
+			// never the caller's original: callers continue with it as "the current parent"
+			for _, b := range cl.Blocks {
+				for _, in := range b.Instrs {
+					st, isS := in.(*ssa.Store)
+					if !isS || st.Addr != ssa.Value(fv) {
+						continue
+					}
+					if c, isC := st.Val.(*ssa.Const); isC && c.IsNil() {
+						continue
+					}
+					live := engine.BackSlice(st.Val, func(x ssa.Value) bool {
+						call, isCall := x.(*ssa.Call)
+						if !isCall {
+							return false
+						}
+						_, verb, isSink := engine.ClassifySink(engine.CallKey(call.Common()))
+						k := engine.CallKey(call.Common())
+						return isSink && (verb == "Update" || verb == "UpdateStatus") || strings.HasSuffix(k, "ResourceInterface.Get") || strings.HasSuffix(k, ".Get") && strings.Contains(k, "ControllerRevision")
+					}, nil)
+					if !live {
+						ok, why = false, "result is assigned "+E(st.Val)+" at "+p.InstrPos(in)+", which is not the object just read from or written to the API server: on the nothing-to-do branch the caller gets its own stale copy back and goes on with it (e.g. a parent without the deletionTimestamp/finalizer the live one has)"
+					}
+				}
+			}
 			if w != nil {
 				ok, why = false, "the retry closure can end without error and without assigning result ("+pathWhy(w)+"): the helper then returns (nil, nil) and finalizer.SyncObject hands a nil parent to the sync, which dereferences it"
 			}
